@@ -159,3 +159,10 @@ def no_value_is(values, bad):
         if v["value"] == bad:
             return False
     return True
+
+
+def untouched_by(er, matches):
+    for m in matches:
+        if m.start() < er.start + er.length and m.end() > er.start:
+            return False
+    return True
